@@ -6,24 +6,24 @@ ROOT = os.path.dirname(os.path.dirname(os.path.abspath(__file__)))
 CLAIMS = {
  "C01": dict(level="proof", design="DESIGN.md §3 C01",
    technique="contract-based deductive verification: Verus (vacancy index, layout lemmas; unbounded) + Kani function-contract harnesses on the real code from arbitrary invariant-satisfying pre-states",
-   text="Slab layout arithmetic is proved for every object layout (size 1..2^40, align 1..4096) by loop-free Kani contracts; disjointness/alignment/address-stability follow by Verus lemmas over that contract; the vacancy bitmap + tracker are proved by Verus on the real function bodies for any number of slabs (incl. the 64-slab block boundary); slab and raw-pool operations are checked as inductive steps (arbitrary well-formed pre-state, one call, invariant + whole-structure frame after) at slab capacity <= 4 and <= 3 slabs - those are counted as bounded, not as proved.",
-   note="Trusted: kani-compiler/CBMC, Verus/Z3, the extractor's rewrite table (reported per run), allocator alignment, dependency contracts listed in the evidence. Not covered: cast.rs, handle conversions, the blind pool's HashMap, managed/local wrappers."),
+   text="Slab layout arithmetic is proved for every object layout (size 1..2^40, align 1..4096) by loop-free Kani contracts; disjointness/alignment/address-stability follow by Verus lemmas over that contract; the vacancy bitmap + tracker are proved by Verus on the real function bodies for any number of slabs (incl. the 64-slab block boundary); slab and raw-pool operations are checked as inductive steps (arbitrary well-formed pre-state, one call, invariant + whole-structure frame after) at slab capacity <= 4 and <= 3 slabs - those are counted as bounded, not as proved. The handle layer and the blind pools (21 source files taken whole) are checked against the raw pool's contract as an executable stand-in: handle conversions keep the issued address; blind pools route every object to an inner pool of exactly its layout and every handle back to the pool that issued it (bounded).",
+   note="Trusted: kani-compiler/CBMC, Verus/Z3, the extractor's rewrite table (reported per run), allocator alignment, dependency contracts listed in the evidence. Stand-ins with stated contracts: RawOpaquePool (as callee of the handle layer), std Mutex, BTreeMap (3 slots), catch_unwind. Not covered: cast.rs (macro-generated), the real BTreeMap."),
  "C02": dict(level="other", design="DESIGN.md §3 C02",
-   technique="contract-based deductive verification: Kani function-contract harnesses (inductive step from arbitrary invariant-satisfying pre-states) on the real slab / raw pool code",
-   text="Accounting (count/len/vacancy bits = occupied slots), destructor-exactly-once on remove / never on remove_unpin / once per live object on slab and pool drop, drop-policy panic iff non-empty, iterator exactness in both directions, capacity >= len and the reserve(n) postcondition are checked as per-operation contracts from every well-formed pre-state at slab capacity <= 3 (pool: <= 3 slabs of capacity 2). Size-bounded, history-unbounded; no obligation here is counted as an unbounded proof.",
-   note="Unwinding is not modelled (catch_unwind/resume_unwind/thread::panicking stubbed by plain calls in harnesses that reach Slab::drop). Reference-counted handles (Arc/Rc based) and the managed/local/blind wrappers are not covered."),
+   technique="contract-based deductive verification: Kani function-contract harnesses (inductive step from arbitrary invariant-satisfying pre-states) on the real slab / raw pool code; handle layer, blind pools and pool iterator extracted mechanically and checked against their callee's contract",
+   text="Accounting (count/len/vacancy bits = occupied slots), destructor-exactly-once on remove / never on remove_unpin / once per live object on slab and pool drop, drop-policy panic iff non-empty, iterator exactness in both directions, capacity >= len and the reserve(n) postcondition are checked as per-operation contracts from every well-formed pre-state at slab capacity <= 3 (pool: <= 3 slabs of capacity 2). Size-bounded, history-unbounded; no obligation here is counted as an unbounded proof. Handle layer (local / managed x opaque / blind, whole files): every release path (drop, shared clones in either order, erase, into_inner, dyn cast, share+erase) reaches pool.remove / remove_unpin exactly once with the issued handle and only when the last shared handle goes. Pool iterator (extracted) over the slab iterator's contract for 0..3 slabs.",
+   note="Unwinding is not modelled (catch_unwind/resume_unwind/thread::panicking stubbed by plain calls in harnesses that reach Slab::drop). The handle layer and the pool iterator are verified against contract stand-ins of their callees (RawOpaquePool, SlabIterator), not against the callees' bodies in the same query."),
  "C04": dict(level="other", design="DESIGN.md §3 C04",
    technique="contract-based deductive verification: the representation invariant as a precondition of every user callback (destructor / init closure), checked by Kani harnesses on the real code",
-   text="Partial: neither verifier models unwinding. Decided here is the sufficient condition the code relies on: whenever user code runs inside Slab / RawOpaquePool insert and remove, the structure already satisfies its representation invariant (and insert has modified nothing), so a panic at that point leaves len/iteration/capacity describing exactly the live objects. Found and fixed: RawOpaquePool::remove updated len and the vacancy index after the destructor.",
-   note="Size-bounded inductive steps (capacity <= 3, <= 2 slabs). Managed/local pools (mutex poisoning, RefCell borrow flags), iteration closures and re-entrancy through handles are out of reach."),
+   text="Partial: neither verifier models unwinding. Decided here is the sufficient condition the code relies on: whenever user code runs inside Slab / RawOpaquePool insert and remove, the structure already satisfies its representation invariant (and insert has modified nothing), so a panic at that point leaves len/iteration/capacity describing exactly the live objects. Found and fixed: RawOpaquePool::remove updated len and the vacancy index after the destructor. Managed pools (OpaquePool insert_with / insert_with_unchecked / with_iter, BlindPool insert_with) release their lock before a caught panic is resumed (contract at catch_unwind / resume_unwind). KNOWN FINDING (recorded in known_findings.txt, not repaired): all managed handle types run the object's destructor while holding the pool guard, so dropping a pooled object that owns a handle into the same pool panics (RefCell, local pools) or deadlocks (Mutex, thread-safe pools) - the object-graph clause of C04 does not hold on the current tree; the check prints KNOWN-FINDING for the four listed call sites and exits 0.",
+   note="Size-bounded inductive steps (capacity <= 3, <= 2 slabs). Unwinding is represented by contracts at catch_unwind / resume_unwind over a stand-in Mutex; destructors that panic at handle level and the blind handles' nested-drop harnesses (memory) are not covered by Kani (the native replay crate units/pool/replay_handles shows them)."),
  "C09": dict(level="proof", design="DESIGN.md §3 C09",
    technique="contract-based deductive verification: Verus on selection regions extracted mechanically from take()/take_all(); Kani on the extracted float clamp",
    text="Partial: for the regions Any / PreferSame / RequireSame (and, bounded, PreferDifferent) of take() and reduce_processors_until_under_quota, Verus proves for any number of regions and candidates: exactly `count` processors or nothing, every one a candidate, pairwise distinct, one region where required, quota cut is a prefix. The quota->count clamp is proved for every f64. Found and fixed: PreferSame over-selected.",
    note="Everything before a region (candidate filtering, region ordering) is an unchecked precondition; rand/itertools contracts are assumed; the PreferDifferent arm is checked only at small concrete sizes over stand-ins (bounded); take_all's selection is checked at small concrete sizes over stand-ins (bounded); the RequireDifferent arm of take(n) and candidate filtering are not covered."),
  "C10": dict(level="proof", design="DESIGN.md §3 C10",
    technique="contract-based deductive verification: Verus on CpuMask / BitPosition bodies and the pin loop region; Kani full-domain contract for BitPosition",
-   text="Partial: the mask handed to sched_setaffinity holds exactly the ids of the processor set, for every id in u32 and every mask width (CpuMask::insert = set insertion, width never shrinks; id <-> (word, bit) round trip for every u32); and the pin status the library records after a pin (processor known iff the set is a single processor; memory region known iff ALL processors of the set share one region) is proved for the decision chain of pin_current_thread_to over stand-in observers, for any number of processors.",
-   note="That the kernel applies the mask, thread spawning, and the thread-local storage of the pin status (isolation between threads and hardware instances) are outside any contract; SmallVec->Vec rewrite (R4); itertools unique().count() replaced by an assumed shim."),
+   text="Partial: the mask handed to sched_setaffinity holds exactly the ids of the processor set, for every id in u32 and every mask width (CpuMask::insert = set insertion, width never shrinks; id <-> (word, bit) round trip for every u32); and the pin status the library records after a pin (processor known iff the set is a single processor; memory region known iff ALL processors of the set share one region) is proved for the decision chain of pin_current_thread_to over stand-in observers, for any number of processors; the per-thread pin-state map returns exactly the last state set for a hardware instance and never touches another instance's state (Kani, <= 2 instances, bounded).",
+   note="That the kernel applies the mask, thread spawning, and thread_local! isolation between threads are outside any contract; SmallVec->Vec rewrite (R4); itertools unique().count() replaced by an assumed shim."),
  "C11": dict(level="proof", design="DESIGN.md §3 C11",
    technique="contract-based deductive verification: Verus on emit() arithmetic regions and CpuMask; Kani on mask equality and the extracted quota min",
    text="Partial: cpulist::emit's grouping step and range arithmetic never panic and describe exactly the run, including runs ending at u32::MAX (found and fixed: a 3+ run ending at u32::MAX panicked); masks are sets independent of width; processor-time quota = min(reported count, cgroup quota) for all f64; the NUMA-node join (every possible node that lists processors is reported with its list, nodes without members are skipped) over stand-ins at small concrete sizes.",
